@@ -1251,10 +1251,15 @@ impl FileReaderBuilder {
     pub fn build<R: Read + Seek>(self, mut reader: R) -> Result<FileReader<R>, ArrowError> {
         // Space for ARROW_MAGIC (6 bytes) and length (4 bytes)
         let mut buffer = [0; 10];
-        reader.seek(SeekFrom::End(-10))?;
+        let trailer_start = reader.seek(SeekFrom::End(-10))?;
         reader.read_exact(&mut buffer)?;
 
         let footer_len = read_footer_length(buffer)?;
+        if footer_len as u64 > trailer_start {
+            return Err(ArrowError::ParseError(format!(
+                "Footer length {footer_len} exceeds the {trailer_start} bytes that precede the file trailer"
+            )));
+        }
 
         // read footer
         let mut footer_data = vec![0; footer_len];
